@@ -278,6 +278,11 @@ func runC04(c *run.Ctx) {
 			c.Outcome("ugc|conforming|only-rel-added")
 		}
 	}
+	for _, n := range []int{4097, 65536, 70000, 1<<20 + 1} {
+		conform("<p>" + strings.Repeat("t", n) + "</p>")
+		conform("<pre>" + strings.Repeat("line of text\n", n/13) + "</pre>")
+		conform(`<p title="` + strings.Repeat("a", n) + `">t</p>`)
+	}
 	elsList := v.AllowedElementNames()
 	inner := []string{"t", "<b>t</b>", "<a href=\"http://example.com/a?b=c\">t</a>", "<img src=\"/rel/path\">", "<span title=\"x\">t</span>", "t &amp; &lt;t&gt;"}
 	for _, el := range elsList {
